@@ -509,7 +509,7 @@ func TestC04(t *testing.T) {
 		"float64 reference with the gamma_K forward bound |got-ref| <= (K+8) u S (DESIGN.md 1.6), valid for every summation order")
 	defer reportKnownFindings("C04")
 
-	check(t, "ops", 30000, 100000, func(rt *rapid.T) {
+	check(t, "ops", 30000, 400000, func(rt *rapid.T) {
 		c := c04Gen(rt)
 		res := runOp(c.op, c.node, cloneTs(c.ins))
 		cls := []string{"op-" + c.op, "dtype-" + c.dt.String()}
